@@ -294,7 +294,7 @@ func TestProp_Window(t *testing.T) {
 			}
 		}
 		c.NBSkew, c.NASkew, c.NBEdge, c.NAEdge = nbSkew.String(), naSkew.String(), a.String(), b.String()
-		c.Field = rapid.SampledFrom([]string{"ok", "ok", "ok", "ok", "no-cert-key", "bad-cert-type", "no-nonce", "no-enc-key", "bad-enc-type", "not-after-missing", "not-after-bad-nanos", "not-before-bad-nanos", "cert-key-not-ed25519", "cert-key-not-ed25519"}).Draw(t, "field")
+		c.Field = rapid.SampledFrom([]string{"ok", "ok", "ok", "ok", "no-cert-key", "bad-cert-type", "no-nonce", "no-enc-key", "bad-enc-type", "not-after-missing", "not-after-bad-nanos", "not-before-bad-nanos", "cert-key-not-ed25519", "cert-key-not-ed25519", "window-far-away", "window-far-away"}).Draw(t, "field")
 		actor := vkit.NewActor("n")
 		if c.Entry == "fetch-authorized" {
 			if _, err := w.Authorize(actor); err != nil {
@@ -325,6 +325,41 @@ func TestProp_Window(t *testing.T) {
 		case "not-after-missing":
 			info.NotAfter = nil
 			windowOK = false // the epoch is long past (skews are at most days)
+		case "window-far-away":
+			// the whole window lies years to millennia from now, on one side (protobuf
+			// timestamps span the years 1 to 9999; well outside is still outside)
+			years := []int{1, 10, 100, 200, 250, 292, 293, 300, 400, 500, 584, 585, 600, 700, 800, 1000, 1500, 2000, 5000, 7000}
+			y1 := rapid.SampledFrom(years).Draw(t, "nearEdgeYears")
+			y2 := rapid.SampledFrom(years).Draw(t, "farEdgeYears")
+			if y2 < y1 {
+				y1, y2 = y2, y1
+			}
+			switch rapid.SampledFrom([]string{"future", "past", "shifted-by-2^64ns-ahead", "shifted-by-2^64ns-back"}).Draw(t, "farSide") {
+			case "future":
+				info.NotBefore, info.NotAfter = vkit.TS(now.AddDate(y1, 0, 0)), vkit.TS(now.AddDate(y2, 0, 1))
+				c.NBEdge, c.NAEdge = fmt.Sprintf("+%dy", y1), fmt.Sprintf("+%dy", y2)
+			case "past":
+				if y2 > 2000 {
+					y2 = 2000
+				}
+				if y1 > y2 {
+					y1 = y2
+				}
+				info.NotBefore, info.NotAfter = vkit.TS(now.AddDate(-y2, 0, -1)), vkit.TS(now.AddDate(-y1, 0, 0))
+				c.NBEdge, c.NAEdge = fmt.Sprintf("-%dy", y2), fmt.Sprintf("-%dy", y1)
+			case "shifted-by-2^64ns-ahead":
+				// an ordinary window around now, moved by exactly 2^64 nanoseconds (~584.5 years)
+				half := time.Duration(1 << 62)
+				info.NotBefore = vkit.TS(now.Add(-time.Hour).Add(half).Add(half).Add(half).Add(half))
+				info.NotAfter = vkit.TS(now.Add(time.Hour).Add(half).Add(half).Add(half).Add(half))
+				c.NBEdge, c.NAEdge = "-1h+2^64ns", "+1h+2^64ns"
+			default:
+				half := -time.Duration(1 << 62)
+				info.NotBefore = vkit.TS(now.Add(-time.Hour).Add(half).Add(half).Add(half).Add(half))
+				info.NotAfter = vkit.TS(now.Add(time.Hour).Add(half).Add(half).Add(half).Add(half))
+				c.NBEdge, c.NAEdge = "-1h-2^64ns", "+1h-2^64ns"
+			}
+			windowOK = false
 		case "not-after-bad-nanos":
 			info.NotAfter.Nanos = rapid.SampledFrom([]int32{-1, 1_000_000_000, -2_000_000_000}).Draw(t, "nanos")
 		case "not-before-bad-nanos":
@@ -364,7 +399,7 @@ func TestProp_Window(t *testing.T) {
 			}
 			req = &types.FetchNodeCredentialsRequest{Bundle: b, BundleSignature: sig}
 		}
-		c.Expected = windowOK && (c.Field == "ok" || strings.HasPrefix(c.Field, "not-"))
+		c.Expected = windowOK && (c.Field == "ok" || strings.HasPrefix(c.Field, "not-")) // window-far-away: windowOK is false
 		opts := w.O(nodeenrollment.WithNotBeforeClockSkew(nbSkew), nodeenrollment.WithNotAfterClockSkew(naSkew))
 		w.Rec.Reset()
 		var err error
